@@ -183,3 +183,7 @@
 (define-fun store.sig ((a (Array Int cashu.BlindedSignature)) (i Int) (v cashu.BlindedSignature)) (Array Int cashu.BlindedSignature) (store a i v))
 (define-fun store.proof ((a (Array Int cashu.Proof)) (i Int) (v cashu.Proof)) (Array Int cashu.Proof) (store a i v))
 (define-fun store.bm ((a (Array Int cashu.BlindedMessage)) (i Int) (v cashu.BlindedMessage)) (Array Int cashu.BlindedMessage) (store a i v))
+
+;@module ln
+;@ghost ln.attempted (Array Str Bool)
+(declare-fun ln.fee (Int) Int)
